@@ -5,42 +5,60 @@ import re
 import shutil
 import tempfile
 
-from twisted.internet import _producer_helpers, task
+from twisted.internet import _producer_helpers, error, task
 from twisted.internet.testing import StringTransport
-from twisted.python import log
-from twisted.web import server, static
+from twisted.python import failure, log
+from twisted.web import resource, server, static
 
 HEADLINE = "TwistedProps.C25.single_/multi_satisfiable_gives_exact_bytes_206 / never_internal_error"
-RULE = ("file sizes 0..65536 skewed to 0,1,2,10,63..65,bufferSize±k; content = quadratic byte pattern; Range values from "
-        "the RFC 9110 grammar (int-range, open, suffix incl. suffix > size and -0, overlapping/reversed/out-of-file, 1..70 "
-        "ranges, tolerated whitespace, empty list elements) + a malformed stream (signs, underscores, unit case/other units, "
-        "missing '=', '-', non-UTF-8 bytes, 4301-digit numbers) + multi-range sets whose cumulative multipart length lands "
-        "around a multiple of bufferSize; GET and HEAD; distinct = (method, size class, header class, #ranges class, "
-        "#satisfiable class, status, body-size class)")
+RULE = ("file sizes 0..65536 skewed to 0,1,2,10,63..65,bufferSize±k PLUS files longer than bufferSize (65537..200000: several reads "
+        "on the 200 path, one range longer than a buffer that ends before EOF, a long part among several); content = quadratic byte "
+        "pattern; Range values from the RFC 9110 grammar (int-range, open, suffix incl. suffix > size and -0, overlapping/reversed/"
+        "out-of-file, 1..70 ranges and 71..3500 ranges (as many as fit HTTPChannel's 16 KiB header limit), numbers with leading zeros up "
+        "to the 4300-digit limit, tolerated whitespace, empty list elements) + a malformed stream (signs, underscores, unit case/other "
+        "units, missing '=', '-', non-UTF-8 bytes, non-ASCII decimal digits and digit-like characters in UTF-8/Latin-1/UTF-16 clothing, "
+        "Unicode/control whitespace next to a number, 4301-digit numbers) + multi-range sets whose cumulative multipart length lands "
+        "around a multiple of bufferSize; GET and HEAD; the File object either created per request by File.getChild of the directory "
+        "(via=dir) or ONE File object put in a resource tree and reused (via=leaf) after 0..3 earlier requests (same header again, "
+        "other headers, the file rewritten with another size/content in between, the client gone after 0..2 reads) - every answer of "
+        "the reused object is judged; distinct = (method, size class, header class, zero-padding, #ranges class, #satisfiable class, "
+        "status, body-size class, reuse/changed/aborted history class)")
 ASSUMES = [
-    "the path names a regular readable file that does not change during the request; no conditional headers (If-Range, If-Modified-Since)",
+    "the path names a regular readable file that does not change during a request (it may change between two requests served by the "
+    "same File object); no conditional headers (If-Range, If-Modified-Since)",
     "'malformed' is read against the RFC 9110 Range grammar with Python-ASCII whitespace (0x09-0x0d, 0x20) tolerated around the unit, "
     "'=', ',' and each number (test_static.test_rangeWithSpace/test_nullRangeElements pin this); signs, underscores, "
-    "empty range sets and non-digit bytes are malformed; the range unit is case-insensitive (RFC 9110 §14.1)",
-    "numbers have at most 4300 digits (CPython int() refuses longer ones; the header is then ignored, which RFC 9110 permits)",
+    "empty range sets, non-digit bytes and non-ASCII digits/whitespace are malformed; leading zeros are allowed (1*DIGIT); the range "
+    "unit is case-insensitive (RFC 9110 §14.1)",
+    "numbers have at most 4300 digits, leading zeros included (CPython int() refuses longer ones; the header is then ignored, which RFC 9110 permits)",
     "HEAD: RFC 9110 §14.2 defines range handling only for GET; the oracle accepts 200 with whole-content headers and no body "
     "(what the code does) or the GET status/headers with no body",
     "zero-length file with a non-zero suffix range: RFC 9110 calls it satisfiable but no valid Content-Range exists; the oracle "
     "accepts 416 or 200 (empty body), the model/theorems say 416",
-    "header values reach File via HTTPChannel: no NUL/CR/LF inside, no leading/trailing SP/HTAB (the channel strips them)",
-    "NoRangeStaticProducer (200 path) is abstracted in the model to 'the whole content'; the tie still runs it",
+    "header values reach File via HTTPChannel: no NUL/CR/LF inside, no leading/trailing SP/HTAB (the channel strips them), request "
+    "line + headers below HTTPChannel.totalHeadersSize (16384), hence at most ~3700 ranges",
+    "NoRangeStaticProducer (200 path) is abstracted in the model to 'the whole content'; the tie still runs it (also on files of "
+    "several buffers)",
+    "a client that goes away is simulated the way abstract.FileDescriptor.connectionLost does it: transport.producer.stopProducing() "
+    "then protocol.connectionLost(); such an aborted earlier request is only required not to log an error",
+    "the producers are driven one resumeProducing per cooperator tick, at most 400 ticks per response (a response that is still "
+    "unfinished then is 'stalled'); a producer that makes 3000 consecutive empty reads is stopped with an exception (seen as an "
+    "internal error) - both bounds are far above what a correct producer needs and turn spinning into a verdict instead of a hang",
 ]
 TRUSTED = ["harness/py2lean.py (translator: static.File._rangeToOffsetAndSize is regenerated into lean/Generated/Range.lean on "
            "every run, one definition per None-pattern of (start, end); translator-regenerated kernel proved equal to the model: "
            "TwistedProps.C25.gen_r2os, gen_r2os_of_parse, gen_r2os_within)",
-           "twisted.web.server.Site/Request and http.HTTPChannel response serialisation (used as the observation path)",
-           "task.Cooperator on task.Clock substituted for the global cooperator that drives pull producers"]
+           "twisted.web.server.Site/Request, resource.Resource.putChild and http.HTTPChannel response serialisation (used as the observation path)",
+           "task.Cooperator on task.Clock substituted for the global cooperator that drives pull producers; File.openForReading "
+           "overridden in the harness (documented hook) to wrap the file object in a read counter"]
 MANIFEST = {
     "text": "Lean theorems (TwistedProps/C25.lean) over a model of File._parseRangeHeader/_rangeToOffsetAndSize/_doSingle/"
             "_doMultipleRangeRequest and the Single/MultipleRangeStaticProducer loops: for every content, header and buffer size the "
             "response is 200+whole content (absent/malformed), 206 with exactly the RFC 9110 byte ranges, matching Content-Range/"
-            "Content-Length (multipart for several), or 416; the producer loops terminate and never read outside the file. "
-            "Model tied to static.py by differential runs through Site+HTTPChannel; RFC oracle parses multipart bodies independently; "
+            "Content-Length (multipart for several), or 416; the producer loops terminate and never read outside the file; a File "
+            "object that serves a sequence of requests answers each as if it were the only one (serve_*). "
+            "Model tied to static.py by differential runs through Site+HTTPChannel (fresh File per request and one reused File with "
+            "history, files up to 3 buffers, up to 3500 ranges); RFC oracle parses multipart bodies independently; "
             "_rangeToOffsetAndSize is regenerated from static.py by the translator on every run and proved equal to the model's r2os "
             "on every range the parser can produce (gen_r2os*).",
     "note": "trusts Lean kernel, the hand-written model (differentially tied), HTTPChannel/Request as observation path, CPython bytes/int semantics",
@@ -55,9 +73,33 @@ WS = b" \t\n\r\x0b\x0c"
 # ---------------------------------------------------------------------------------------------
 # running the real code
 
-_clock = task.Clock()
-_coop = task.Cooperator(scheduler=lambda f: _clock.callLater(0, f))
-_producer_helpers.cooperate = _coop.cooperate      # HTTPChannel wraps pull producers in _PullToPush(cooperate)
+class _Pump:
+    """the cooperator that drives HTTPChannel's _PullToPush wrapper of the pull producers: ONE resumeProducing per tick
+    and a bounded number of ticks, so that a producer that never finishes (it spins on empty reads) is observed as
+    '!stalled' instead of hanging the check"""
+    MAX_TICKS = 400           # a legitimate response needs about (body length / bufferSize) + 2 ticks; bodies are < 1 MiB
+
+    def __init__(self):
+        self.clock = task.Clock()
+        self.coop = task.Cooperator(scheduler=lambda f: self.clock.callLater(1, f),
+                                    terminationPredicateFactory=lambda: (lambda: True))
+
+    def run(self, ticks=None):
+        """→ True when nothing is left to do"""
+        n = 0
+        limit = self.MAX_TICKS if ticks is None else ticks
+        while self.clock.getDelayedCalls() and n < limit:
+            self.clock.advance(1)
+            n += 1
+        return not self.clock.getDelayedCalls()
+
+    def drop(self):
+        for dc in self.clock.getDelayedCalls():
+            dc.cancel()
+
+
+_pump = _Pump()
+_producer_helpers.cooperate = lambda it: _pump.coop.cooperate(it)   # HTTPChannel wraps pull producers in _PullToPush(cooperate)
 
 _dir = None
 _files = {}
@@ -91,16 +133,30 @@ def pattern(size, a, b):
     return bytes((((i * i + a * i + b) % 65521) % 256) for i in range(size))
 
 
-_pat_cache = {}
+_master = {}
 
 
 def content_of(c):
-    k = (c["size"], c["a"], c["b"])
-    if k not in _pat_cache:
-        if len(_pat_cache) > 64:
-            _pat_cache.clear()
-        _pat_cache[k] = pattern(*k)
-    return _pat_cache[k]
+    """pattern(size, a, b): byte i depends on (i, a, b) only, so one master string per (a, b) is sliced"""
+    k = (c["a"], c["b"])
+    m = _master.get(k)
+    if m is None or len(m) < c["size"]:
+        if len(_master) > 16:
+            _master.clear()
+        m = _master[k] = pattern(max(c["size"], 4 * BUFSIZE + 16), *k)
+    return m[:c["size"]]
+
+
+def _write(p, data):
+    """(re)write the file in place; open(p, "wb") (O_TRUNC of an existing file) costs tens of ms on the sandbox filesystem"""
+    fd = os.open(p, os.O_WRONLY | os.O_CREAT, 0o644)
+    try:
+        n = 0
+        while n < len(data):
+            n += os.write(fd, data[n:])
+        os.ftruncate(fd, len(data))
+    finally:
+        os.close(fd)
 
 
 def _path(c):
@@ -115,8 +171,7 @@ def _path(c):
                 os.unlink(p)
             _files.clear()
         p = os.path.join(_dir, "f%d_%d_%d.c25x" % k)
-        with open(p, "wb") as f:
-            f.write(content_of(c))
+        _write(p, content_of(c))
         _files[k] = p
     return _files[k]
 
@@ -124,30 +179,98 @@ def _path(c):
 _cache = {}
 
 
-def _run(c):
-    """→ dict(raw=bytes, finished=bool, errors=int)"""
-    path = _path(c)
-    root = static.File(os.path.dirname(path), defaultType=c["ctype"])
-    site = server.Site(root)
+class SpinningProducer(RuntimeError):
+    pass
+
+
+class _Reads:
+    """the file object handed to the producers (File.openForReading is the documented hook for that): a producer that
+    keeps reading nothing — a `while dataLength < bufferSize` loop that makes no progress — is stopped with an exception
+    (which HTTPChannel's pull-producer wrapper logs: an internal error) instead of hanging the check"""
+    LIMIT = 3000          # a correct producer makes at most one zero-length read per part
+
+    def __init__(self, f):
+        self._f = f
+        self._empty = 0
+
+    def read(self, n=-1):
+        data = self._f.read(n)
+        if data:
+            self._empty = 0
+        else:
+            self._empty += 1
+            if self._empty > self.LIMIT:
+                self._empty = 0
+                raise SpinningProducer("producer spins: %d consecutive reads returned nothing" % self.LIMIT)
+        return data
+
+    def __getattr__(self, name):
+        return getattr(self._f, name)
+
+
+class _File(static.File):
+    def openForReading(self):
+        return _Reads(static.File.openForReading(self))
+
+
+def _leaf_path():
+    global _dir
+    if _dir is None or not os.path.isdir(_dir):
+        _dir = tempfile.mkdtemp(prefix="C25-")
+        _files.clear()
+    return os.path.join(_dir, "leaf.c25x")
+
+
+def _request(site, url, q, abort=None):
+    """one request on a fresh connection to `site` → dict(raw, finished, errors, errtext)"""
+    global _pump
+    _pump = _Pump()
     ch = site.buildProtocol(None)
     tr = StringTransport()
     ch.makeConnection(tr)
-    req = c["method"].encode() + b" /" + os.path.basename(path).encode() + b" HTTP/1.1\r\nHost: x\r\n"
-    if c["range"] is not None:
-        req += b"Range: " + bytes.fromhex(c["range"]) + b"\r\n"
+    req = q["method"].encode() + b" " + url + b" HTTP/1.1\r\nHost: x\r\n"
+    if q["range"] is not None:
+        req += b"Range: " + bytes.fromhex(q["range"]) + b"\r\n"
     req += b"Connection: close\r\n\r\n"
     del _errors[:]
     ch.dataReceived(req)
-    n = 0
-    while _clock.getDelayedCalls() and n < 100000:
-        _clock.advance(0)
-        n += 1
+    if abort is not None:          # the client goes away after `abort` resumeProducing calls
+        _pump.run(abort)
+        if not tr.disconnecting:
+            # what abstract.FileDescriptor.connectionLost does on a real transport: stop the registered producer
+            # (the channel, which stops the request's producer), then tell the protocol
+            if tr.producer is not None:
+                tr.producer.stopProducing()
+            ch.connectionLost(failure.Failure(error.ConnectionDone()))
+    _pump.run()
     finished = bool(tr.disconnecting)
-    for dc in _clock.getDelayedCalls():
-        dc.cancel()
-    res = {"raw": tr.value(), "finished": finished, "errors": len(_errors),
-           "errtext": "; ".join(str(e.get("failure").value)[:80] if e.get("failure") else "error" for e in _errors)}
-    return res
+    _pump.drop()
+    return {"raw": tr.value(), "finished": finished, "errors": len(_errors),
+            "errtext": "; ".join(str(e.get("failure").value)[:80] if e.get("failure") else "error" for e in _errors)}
+
+
+def _run(c):
+    """→ (result of the observed request, [(sub-case, result) of the earlier requests served by the same File object])
+    via=dir (default): a fresh File for the directory, the child File is created by File.getChild for this one request;
+    via=leaf: ONE File object for the path, put in a resource tree (root.putChild(b"f", File(path))), serves c["prev"]
+    (each may rewrite the file first, each on its own connection, possibly aborted by the client) and then the request"""
+    if c.get("via", "dir") == "dir":
+        path = _path(c)
+        site = server.Site(_File(os.path.dirname(path), defaultType=c["ctype"]))
+        return _request(site, b"/" + os.path.basename(path).encode(), c), []
+    path = _leaf_path()
+    root = resource.Resource()
+    site = None
+    earlier = []
+    for q in list(c.get("prev") or []) + [c]:
+        _write(path, content_of(q))
+        if site is None:           # the File object is created when the first version of the file exists
+            root.putChild(b"f", _File(path, defaultType=c["ctype"]))
+            site = server.Site(root)
+        r = _request(site, b"/f", q, q.get("abort"))
+        if q is c:
+            return r, earlier
+        earlier.append((dict(q, ctype=c["ctype"]), r))
 
 
 def _eval(c):
@@ -156,9 +279,25 @@ def _eval(c):
     key = repr(sorted(c.items()))
     e = _cache.get(key)
     if e is None:
-        r = _run(c)
+        r, earlier = _run(c)
         code, hd, body = _parse_response(r["raw"])
-        e = {"out": _impl_line(r, code, hd, body), "orc": _oracle(c, r, code, hd, body), "bd": _boundary(hd) or b"b"}
+        orc = None
+        for i, (q, rq) in enumerate(earlier):      # every answer of the reused File object is judged, not only the last
+            if q.get("abort") is not None:
+                if rq["errors"]:
+                    orc = {"key": "internal-error:aborted-transfer",
+                           "detail": f"earlier request #{i} (client gone after {q['abort']} reads): error logged: {rq['errtext']}"}
+            else:
+                orc = _oracle(q, rq, *_parse_response(rq["raw"]))
+                if orc:
+                    orc = {"key": orc["key"] + ":reused", "detail": f"earlier request #{i} on the same File object: " + orc["detail"]}
+            if orc:
+                break
+        if orc is None:
+            orc = _oracle(c, r, code, hd, body)
+            if orc and earlier:
+                orc = {"key": orc["key"] + ":reused", "detail": f"after {len(earlier)} earlier request(s) on the same File object: " + orc["detail"]}
+        e = {"out": _impl_line(r, code, hd, body), "orc": orc, "bd": _boundary(hd) or b"b"}
         if len(_cache) > 400000:
             _cache.clear()
         _cache[key] = e
@@ -373,7 +512,8 @@ def _oracle(c, r, code, hd, body):
                "multi-unsatisfiable" if specs and len(specs) > 1 and nsat == 0 else
                "multipart-over-buffer" if specs and len(specs) > 1 and kind in ("stalled", "internal-error", "no-response") else
                hc)
-        return {"key": f"{kind}:{cls}", "detail": f"{c['method']} size={size} Range={h!r}: {msg}"}
+        hs = repr(h) if h is None or len(h) <= 200 else repr(h[:120]) + f"…({len(h)} bytes)"
+        return {"key": f"{kind}:{cls}", "detail": f"{c['method']} size={size} Range={hs}: {msg}"}
 
     # "It never fails with an internal error"
     if code is None:
@@ -419,7 +559,7 @@ def _oracle(c, r, code, hd, body):
             return bad("416-body", "416 with a non-empty body")
         return None
     if code != 206:
-        return bad("not-206", f"satisfiable range(s) {sat} ⇒ expected 206; got {code}")
+        return bad("not-206", f"satisfiable range(s) {sat[:6]}{'…' if len(sat) > 6 else ''} ⇒ expected 206; got {code}")
     boundary = _boundary(hd)
     if boundary is None:
         if len(sat) != 1:
@@ -453,9 +593,17 @@ def _oracle(c, r, code, hd, body):
 # ---------------------------------------------------------------------------------------------
 # cases
 
-def _case(size, rng, method="GET", a=7, b=3, ctype="text/plain"):
-    return {"method": method, "size": size, "a": a, "b": b, "ctype": ctype,
-            "range": None if rng is None else (rng if isinstance(rng, bytes) else rng.encode("latin-1")).hex()}
+def _case(size, rng, method="GET", a=7, b=3, ctype="text/plain", prev=None):
+    c = {"method": method, "size": size, "a": a, "b": b, "ctype": ctype,
+         "range": None if rng is None else (rng if isinstance(rng, bytes) else rng.encode("latin-1")).hex()}
+    if prev is not None:           # the same File object (root.putChild) served these first; [] = leaf mode without history
+        c["via"] = "leaf"
+        c["prev"] = [{k: v for k, v in q.items() if k != "ctype"} for q in prev]
+    return c
+
+
+def _aborted(q, after):
+    return dict(q, abort=after)
 
 
 def corpus():
@@ -476,6 +624,19 @@ def corpus():
         _case(10, b"bytes=0-" + b"9" * 4300), _case(10, b"bytes=0-" + b"9" * 4301),
         _case(big, b"bytes=0-"), _case(big, b"bytes=-65536"), _case(big, b"bytes=1-65535,0-0"),
         {"op": "parse", "range": b"bytes=1-2,\r\n, ,\t".hex()}, {"op": "parse", "range": b"bytes=+1-2".hex()},
+        # classes added by the white-box mutation audit (harness/mutants/C25)
+        _case(10, b"bytes=007-9"), _case(10, b"bytes=-03"), _case(10, b"bytes=00-000"), _case(10, b"bytes=0-" + b"0" * 4299 + b"5"),
+        _case(10, b"bytes=\xd9\xa3-"), _case(10, b"bytes=3-\xef\xbc\x95"), _case(10, b"bytes=\xb2-"), _case(10, b"bytes=1-\xc2\xa05"),
+        _case(10, b"bytes=\x1c1-5"), _case(10, b"bytes=1-5\x85"),
+        _case(200000, b"bytes=0-99999"), _case(200000, b"bytes=5-65541"), _case(200000, b"bytes=-131073"), _case(131072, b"bytes=0-"),
+        _case(200000, None), _case(65537, None), _case(131072, b"bytes=x"), _case(200000, b"bytes=0-70000,5-10,-70000"),
+        _case(10, b"bytes=" + b",".join([b"0-0"] * 257)), _case(10, b"bytes=" + b",".join([b"-1", b"10-"] * 1500)),
+        _case(10, b"bytes=" + b",".join([b"10-"] * 300)),
+        _case(10, b"bytes=1-2,4-5", prev=[]), _case(10, b"bytes=1-2,4-5", prev=[_case(10, b"bytes=1-2,4-5")]),
+        _case(20, b"bytes=-5", prev=[_case(10, b"bytes=-5")]), _case(5, b"bytes=7-", prev=[_case(10, None)]),
+        _case(10, b"bytes=2-", prev=[_case(0, b"bytes=0-"), _case(10, b"bytes=5-2")]),
+        _case(10, b"bytes=0-3,5-", prev=[_aborted(_case(200000, None), 1), _aborted(_case(200000, b"bytes=0-1,3-150000"), 1)]),
+        _case(10, None, "HEAD", prev=[_aborted(_case(200000, b"bytes=1-"), 0)]),
     ]
 
 
@@ -488,6 +649,18 @@ def _num(rng, size):
                        size * 1000 + 7, 2 ** 64 + size])
 
 
+def _d(rng, n):
+    """decimal rendering of n per the RFC grammar 1*DIGIT: now and then with leading zeros (a few, or up to the 4300-digit
+    limit of int(); one digit more is the 'huge' class)"""
+    t = b"%d" % n
+    k = rng.random()
+    if k < 0.84:
+        return t
+    if k < 0.98:
+        return b"0" * rng.choice([1, 1, 2, 3, 7, 19]) + t
+    return b"0" * (rng.choice([4300, 4300, 4301, 64]) - len(t)) + t
+
+
 def _spec(rng, size):
     k = rng.random()
     if k < 0.4:
@@ -495,10 +668,10 @@ def _spec(rng, size):
         b = max(0, _num(rng, size))
         if a > b and rng.random() < 0.85:
             a, b = b, a
-        return b"%d-%d" % (a, b)
+        return _d(rng, a) + b"-" + _d(rng, b)
     if k < 0.65:
-        return b"%d-" % max(0, _num(rng, size))
-    return b"-%d" % max(0, _num(rng, size))
+        return _d(rng, max(0, _num(rng, size))) + b"-"
+    return b"-" + _d(rng, max(0, _num(rng, size)))
 
 
 def _ws(rng):
@@ -522,7 +695,47 @@ def _valid_header(rng, size, n=None):
     return b"bytes=" + b",".join(specs)
 
 
+_UNIDIGIT0 = [0x0660, 0x06F0, 0x0966, 0x09E6, 0x0E50, 0xFF10, 0x1D7CE, 0x1D7D8]     # Nd: str.isdigit() and int() take them
+_ODD_DIGITS = ["\u00b2", "\u00b3", "\u00b9", "\u2460", "\u2080", "\u2075", "\u0bf0", "\u3007", "\u4e09", "\u216b"]  # No/Nl/Lo
+_UNISPACE = [b"\xc2\xa0", b"\xa0", b"\x85", b"\xc2\x85", b"\x1c", b"\x1d", b"\x1e", b"\x1f", b"\xe2\x80\x83", b"\xe3\x80\x80",
+             b"\xe2\x80\xa8", b"\xe1\x9a\x80", b"\xef\xbb\xbf", b"\xe2\x80\x8b"]
+
+
+def _unidigits(rng, m):
+    """the ASCII digits of m replaced (one of them, or all) by non-ASCII 'digits' in UTF-8 / Latin-1 / UTF-16 clothing"""
+    t = m.group(0)
+    z = rng.choice(_UNIDIGIT0)
+    enc = rng.choice(["utf-8", "utf-8", "utf-8", "utf-16-be"]) if z < 0x10000 else "utf-8"
+    k = rng.random()
+    if k < 0.45:      # every digit, same script: int(text) would give the same number
+        return b"".join(chr(z + d - 48).encode(enc) for d in t)
+    if k < 0.8:       # one digit only
+        i = rng.randrange(len(t))
+        return t[:i] + chr(z + t[i] - 48).encode(enc) + t[i + 1:]
+    o = rng.choice(_ODD_DIGITS)
+    return rng.choice([o.encode("utf-8"), o.encode("latin-1", "ignore") or o.encode("utf-8"), t + o.encode("utf-8")])
+
+
+def _malformed_unicode(rng, size):
+    base = _valid_header(rng, size, rng.choice([1, 1, 2, 3]))
+    while not re.search(rb"\d", base.partition(b"=")[2]):
+        base = _valid_header(rng, size, 1)
+    unit, eq, rest = base.partition(b"=")
+    nums = list(re.finditer(rb"\d+", rest))
+    m = rng.choice(nums)
+    if rng.random() < 0.7:
+        rest = rest[:m.start()] + _unidigits(rng, m) + rest[m.end():]
+    else:             # whitespace that str.strip()/int(str) tolerate and bytes.strip()/the RFC do not
+        w = rng.choice(_UNISPACE)
+        at = rng.choice([m.start(), m.end()])
+        rest = rest[:at] + w + rest[at:]
+    h = unit + eq + rest
+    return h[:-1] + b"0" if h[-1:] in b" \t" else h       # the channel strips trailing SP/HTAB
+
+
 def _malformed(rng, size):
+    if rng.random() < 0.22:
+        return _malformed_unicode(rng, size)
     base = _valid_header(rng, size)
     k = rng.randrange(12)
     if k == 0:
@@ -569,25 +782,126 @@ def _near_buffer(rng, size):
     return b"bytes=" + b",".join(specs)
 
 
+MAXHDR = 15000      # HTTPChannel.totalHeadersSize is 16384 for the request line and all headers together
+MANY = [71, 100, 127, 128, 129, 200, 255, 256, 257, 300, 500, 511, 512, 513, 999, 1000, 1001, 1023, 1024, 1025, 1500, 2000, 2048, 2049, 3000,
+        3500]
+
+
+def _many(rng, size):
+    """a valid range-set with very many elements (up to what fits in a request HTTPChannel accepts)"""
+    n = rng.choice(MANY)
+    pool = [b"0-0", b"-1", b"0-", b"%d-" % max(0, size - 1), b"0-%d" % size, b"%d-%d" % (size // 2, size // 2), b"-%d" % size]
+    if rng.random() < 0.5:
+        pool += [b"%d-" % size, b"-0", b"%d-%d" % (size, size + 1)]        # unsatisfiable ones mixed in
+    if rng.random() < 0.15:
+        pool = [b"%d-" % size, b"-0", b"%d-%d" % (size + 1, size + 1)]      # none satisfiable
+    specs, total = [], 6
+    for _ in range(n):
+        e = rng.choice(pool)
+        if total + len(e) + 1 > MAXHDR:
+            break
+        specs.append(e)
+        total += len(e) + 1
+    return b"bytes=" + b",".join(specs)
+
+
+OVER = [65537, 65537, 65600, 70000, 100000, 131071, 131072, 131072, 131073, 150000, 196608, 200000]
+
+
+def _over_buffer(rng):
+    """files LONGER than bufferSize: the 200 path needs several reads, one range can be longer than a buffer and end before EOF"""
+    size = rng.choice(OVER) if rng.random() < 0.8 else rng.randint(BUFSIZE + 1, 3 * BUFSIZE + 9)
+    k = rng.random()
+    if k < 0.12:
+        return size, None
+    if k < 0.25:
+        return size, _malformed(rng, size)
+    if k < 0.65:      # one long range
+        a = rng.choice([0, 0, 1, 5, size - BUFSIZE - 1, rng.randint(0, size - 1)])
+        a = max(0, a)
+        n = rng.choice([BUFSIZE - 1, BUFSIZE, BUFSIZE + 1, BUFSIZE + 2, 2 * BUFSIZE, 2 * BUFSIZE + 1, 100000, size - a, size - a - 1,
+                        rng.randint(1, size)])
+        n = max(1, n)
+        form = rng.random()
+        if form < 0.7:
+            return size, b"bytes=%d-%d" % (a, a + n - 1)
+        if form < 0.85:
+            return size, b"bytes=-%d" % n
+        return size, b"bytes=%d-" % a
+    if k < 0.85:      # a long part among several
+        a = rng.choice([0, 1, rng.randint(0, size // 2)])
+        n = rng.choice([BUFSIZE, BUFSIZE + 1, 2 * BUFSIZE + 3, size - a, rng.randint(BUFSIZE // 2, size)])
+        specs = [_spec(rng, size) for _ in range(rng.choice([1, 2, 3]))]
+        specs.insert(rng.randrange(len(specs) + 1), b"%d-%d" % (a, a + n - 1))
+        return size, b"bytes=" + b",".join(specs)
+    return size, _near_buffer(rng, size)
+
+
+def _history(rng, tier):
+    """one File object put in a resource tree and reused: 0..3 earlier requests (other ranges, the same multi-range header
+    again, the file rewritten with another size in between, the client gone in mid-transfer), then the observed request"""
+    ctype = rng.choice(["text/plain", "application/octet-stream", "a/b"])
+
+    def one(size):
+        a, b = rng.choice([(7, 3), (1, 0), (250, 99)])
+        r = rng.random()
+        h = (None if r < 0.06 else _valid_header(rng, size, rng.choice([1, 2, 2, 3, 5])) if r < 0.8 else _malformed(rng, size))
+        if len(h or b"") > MAXHDR:
+            h = b"bytes=" + _spec(rng, size)[-40:].lstrip(b"0") 
+        return _case(size, h, "HEAD" if rng.random() < 0.08 else "GET", a, b, ctype)
+
+    big = rng.random() < 0.06
+    size = rng.choice(OVER + BIG) if big else rng.choice(SIZES) if rng.random() < 0.8 else rng.randint(0, 300)
+    last = one(size)
+    prev = []
+    for _ in range(rng.choice([0, 1, 1, 1, 2, 2, 3])):
+        k = rng.random()
+        if k < 0.45:       # the file had another size when that request was served
+            psize = rng.choice([0, 1, 2, size // 2, size + 1, 2 * size + 3, max(0, size - 1), rng.choice(SIZES)]) if not big \
+                else rng.choice([10, size - 1, size // 2, BUFSIZE, 200000])
+        else:
+            psize = size
+        q = one(psize)
+        if rng.random() < 0.3:
+            q["range"] = last["range"]        # the same header twice
+        if psize == size and rng.random() < 0.5:
+            q["a"], q["b"] = last["a"], last["b"]      # same content
+        if rng.random() < 0.2 and q["method"] == "GET":
+            q = _aborted(q, rng.choice([0, 0, 1, 2]))
+        prev.append(q)
+    last["via"] = "leaf"
+    last["prev"] = [{k: v for k, v in q.items() if k != "ctype"} for q in prev]
+    return last
+
+
 def generate(rng, tier):
     n = 2600 if tier == "quick" else 60000
     nbig = 160 if tier == "quick" else 6000
+    nover = 90 if tier == "quick" else 1000
     ctypes = ["text/plain", "application/octet-stream", "a/b"]
     for i in range(n):
+        r = rng.random()
+        if r < 0.13:
+            yield _history(rng, tier)
+            continue
         size = rng.choice(SIZES) if rng.random() < 0.8 else rng.randint(0, 300)
         a, b = rng.choice([(7, 3), (1, 0), (250, 99)])
         method = "HEAD" if rng.random() < 0.1 else "GET"
         r = rng.random()
         if r < 0.03:
             h = None
-        elif r < 0.60:
+        elif r < 0.58:
             h = _valid_header(rng, size)
-        elif r < 0.68:
+        elif r < 0.66:
             h = _valid_header(rng, size, rng.choice([9, 17, 40, 70]))
+        elif r < (0.68 if tier == "quick" else 0.667):
+            h = _many(rng, size)
         elif r < 0.95:
             h = _malformed(rng, size)
         else:
             yield {"op": "parse", "range": rng.choice([_valid_header, _malformed])(rng, size).hex()}
+            continue
+        if len(h or b"") > MAXHDR:
             continue
         yield _case(size, h, method, a, b, rng.choice(ctypes))
     for i in range(nbig):
@@ -601,6 +915,13 @@ def generate(rng, tier):
             h = None
         else:
             h = _malformed(rng, size)
+        if len(h or b"") > MAXHDR:
+            continue
+        yield _case(size, h, "GET" if rng.random() < 0.95 else "HEAD", 7, 3, rng.choice(ctypes))
+    for i in range(nover):
+        size, h = _over_buffer(rng)
+        if len(h or b"") > MAXHDR:
+            continue
         yield _case(size, h, "GET" if rng.random() < 0.95 else "HEAD", 7, 3, rng.choice(ctypes))
 
 
@@ -620,23 +941,65 @@ def search(rng, tier, disagreeing):
                 yield _case(size, form % k if b"%d" in form else form)
     for first in range(65536 - 400, 65536 + 4, 3 if tier == "quick" else 1):
         yield _case(65536, b"bytes=0-%d,0-9" % first)
+    for size in (BUFSIZE + 1, 2 * BUFSIZE, 200000):          # ranges around one and two buffers in a longer file
+        for n in (BUFSIZE - 1, BUFSIZE, BUFSIZE + 1, 2 * BUFSIZE, 2 * BUFSIZE + 1):
+            for a in (0, 1):
+                yield _case(size, b"bytes=%d-%d" % (a, a + n - 1))
+        yield _case(size, None)
+    for n in MANY:
+        yield _case(10, b"bytes=" + b",".join([b"0-0"] * n))
+    for c in disagreeing[:10]:                                   # the same request as the 2nd and 3rd of a reused File
+        if c.get("op") != "parse" and not c.get("prev"):
+            base = {k: v for k, v in c.items() if k not in ("via", "prev")}
+            yield dict(base, via="leaf", prev=[{k: v for k, v in base.items() if k != "ctype"}])
+            yield dict(base, via="leaf", prev=[dict({k: v for k, v in base.items() if k != "ctype"}, size=base["size"] + 7)])
     yield from generate(rng, "quick")
 
 
 def shrink(c):
-    if c.get("op") == "parse" or c["range"] is None:
+    if c.get("op") == "parse":
+        return
+    if c.get("via") == "leaf":
+        prev = c.get("prev") or []
+        for i in range(len(prev)):
+            yield dict(c, prev=prev[:i] + prev[i + 1:])
+        for i, q in enumerate(prev):
+            if "abort" in q:
+                yield dict(c, prev=prev[:i] + [{k: v for k, v in q.items() if k != "abort"}] + prev[i + 1:])
+            for size in (0, 1, 10, c["size"]):
+                if size != q["size"]:
+                    yield dict(c, prev=prev[:i] + [dict(q, size=size)] + prev[i + 1:])
+            if q["range"] is not None and q["range"] != c["range"]:
+                for hh in (c["range"], b"bytes=0-".hex()):
+                    yield dict(c, prev=prev[:i] + [dict(q, range=hh)] + prev[i + 1:])
+        if not prev:
+            yield {k: v for k, v in c.items() if k not in ("via", "prev")}
+    if c["range"] is None:
+        for size in (0, 1, 10, BUFSIZE, BUFSIZE + 1):
+            if size < c["size"]:
+                yield dict(c, size=size)
         return
     h = bytes.fromhex(c["range"])
     unit, eq, rest = h.partition(b"=")
     els = rest.split(b",")
-    for size in (0, 1, 2, 10, 64, 100, 1000, c["size"] // 2):
+    for size in (0, 1, 2, 10, 64, 100, 1000, c["size"] // 2, BUFSIZE + 1, 2 * BUFSIZE + 1):
         if size < c["size"]:
             yield dict(c, size=size)
-    if len(els) > 1:
+    if len(els) > 8:           # halves first: thousands of elements
+        for k in (2, 4, 8):
+            step = max(1, len(els) // k)
+            for i in range(0, len(els), step):
+                yield dict(c, range=(unit + eq + b",".join(els[:i] + els[i + step:])).hex())
+    if 1 < len(els) <= 80:
         for i in range(len(els)):
             yield dict(c, range=(unit + eq + b",".join(els[:i] + els[i + 1:])).hex())
-    for i in range(len(h)):
-        yield dict(c, range=(h[:i] + h[i + 1:]).hex())
+    if len(h) <= 400:
+        for i in range(len(h)):
+            yield dict(c, range=(h[:i] + h[i + 1:]).hex())
+    else:
+        m = re.search(rb"0{8,}", h)      # long runs of leading zeros
+        if m:
+            yield dict(c, range=(h[:m.start()] + b"0" + h[m.end():]).hex())
     if c["a"] != 7 or c["b"] != 3 or c["ctype"] != "text/plain":
         yield dict(c, a=7, b=3, ctype="text/plain")
 
@@ -657,5 +1020,12 @@ def tag(c, out):
     m = re.match(r"code=(\w+) cl=(\S+)", out)
     code = m.group(1) if m else "?"
     cl = int(m.group(2)) if m and m.group(2).isdigit() else -1
-    cnt = lambda k: "0" if k == 0 else "1" if k == 1 else "2-8" if k <= 8 else "9+"
-    return f"{c['method']}:{_szclass(c['size'])}:{hc}:n{cnt(ns)}:sat{cnt(nsat)}:{code}:body{_szclass(cl) if cl >= 0 else '?'}"
+    cnt = lambda k: "0" if k == 0 else "1" if k == 1 else "2-8" if k <= 8 else "9-70" if k <= 70 else "71-256" if k <= 256 else "257+"
+    hist = ""
+    if c.get("via") == "leaf":
+        prev = c.get("prev") or []
+        hist = ":reuse%d" % min(len(prev), 2) + ("chg" if any(q["size"] != c["size"] for q in prev) else "") + \
+               ("abort" if any("abort" in q for q in prev) else "")
+    zeros = ":0pad" if hc == "valid" and re.search(rb"(?<![0-9])0[0-9]", bytes.fromhex(c["range"])) else ""
+    return (f"{c['method']}:{_szclass(c['size'])}:{hc}{zeros}:n{cnt(ns)}:sat{cnt(nsat)}:{code}:body{_szclass(cl) if cl >= 0 else '?'}"
+            f"{hist}")
